@@ -58,7 +58,8 @@ structure State where
   /-- the writer that has announced itself and waits for the readers to leave -/
   pending : Nat → Option Nat
   mem : Nat → Nat
-  logs : List (List Nat)
+  /-- what each thread has read so far -/
+  logs : Nat → List Nat
 
 def upd {β : Type} (f : Nat → β) (k : Nat) (v : β) : Nat → β := fun x => if x = k then v else f x
 
@@ -68,7 +69,7 @@ def upd {β : Type} (f : Nat → β) (k : Nat) (v : β) : Nat → β := fun x =>
 
 def init (p : Prog) : State :=
   { rem := p, owner := fun _ => none, readers := fun _ => [], pending := fun _ => none,
-    mem := fun _ => 0, logs := p.map (fun _ => []) }
+    mem := fun _ => 0, logs := fun _ => [] }
 
 /-- thread `i` can perform action `a` in state `s` -/
 def canFire (s : State) (i : Nat) : Action → Bool
@@ -86,8 +87,8 @@ def fire (wv : WriteFn) (s : State) (i : Nat) (a : Action) (r : Thread) : State 
   | .unlock l => { s with rem := s.rem.set i r, owner := upd s.owner l none }
   | .rlock l => { s with rem := s.rem.set i r, readers := upd s.readers l (i :: s.readers l) }
   | .runlock l => { s with rem := s.rem.set i r, readers := upd s.readers l ((s.readers l).erase i) }
-  | .read x => { s with rem := s.rem.set i r, logs := s.logs.set i (s.logs.getD i [] ++ [s.mem x]) }
-  | .write x => { s with rem := s.rem.set i r, mem := upd s.mem x (wv i x (s.logs.getD i [])) }
+  | .read x => { s with rem := s.rem.set i r, logs := upd s.logs i (s.logs i ++ [s.mem x]) }
+  | .write x => { s with rem := s.rem.set i r, mem := upd s.mem x (wv i x (s.logs i)) }
   | .tau => { s with rem := s.rem.set i r }
 
 /-- what a blocked thread does: a writer that is kept out by readers only announces itself -/
@@ -288,6 +289,25 @@ def stepOp (wv : WriteFn) (s : State) (i : Nat) : State := stepN wv s i (opLen (
 
 /-- sequential execution: `order` lists whose turn it is to run one whole operation -/
 def runSeq (wv : WriteFn) (p : Prog) (order : List Nat) : State := order.foldl (stepOp wv) (init p)
+
+/-- number of steps up to and including the release that ends the section -/
+def secLen : Thread → Nat
+  | [] => 0
+  | .unlock _ :: _ => 1
+  | .runlock _ :: _ => 1
+  | _ :: r => secLen r + 1
+
+/-- length of the first reader/writer operation: one local step, or a whole section -/
+def opLenRW : Thread → Nat
+  | [] => 0
+  | .tau :: _ => 1
+  | _ :: r => secLen r + 1
+
+/-- thread `i` runs its next whole reader/writer operation without interruption -/
+def stepOpRW (wv : WriteFn) (s : State) (i : Nat) : State := stepN wv s i (opLenRW (s.rem.getD i []))
+
+/-- sequential execution of reader/writer operations -/
+def runSeqRW (wv : WriteFn) (p : Prog) (order : List Nat) : State := order.foldl (stepOpRW wv) (init p)
 
 /-! ## Traces and happens-before -/
 
